@@ -300,4 +300,61 @@ def formatLine (n : Nat) (frags : List Frag) : Option (List Piece) := cutFrags n
 /-- `fMatch.FileName[len(f.SubRepositoryPath):]` -/
 def subPathOk (nameLen subLen : Nat) : Bool := decide (subLen ≤ nameLen)
 
+/-! ## web/server.go: the template functions of `Funcmap` that handle index text
+
+`LimitPre`, `LimitPost`, `TrimTrailingNewline`, `AddLineNumbers` are called by the results template on the text around a
+match (arbitrary bytes from the index). A panic inside a template function is an execution error: the whole page is
+lost. Go slice expressions are explicit: `none` = run-time panic. -/
+
+/-- Go `s[i:]` -/
+def goSliceFrom (s : Str) (i : Int) : Option Str :=
+  if 0 ≤ i ∧ i ≤ (s.length : Int) then some (s.drop i.toNat) else none
+
+/-- Go `s[:i]` -/
+def goSliceTo (s : Str) (i : Int) : Option Str :=
+  if 0 ≤ i ∧ i ≤ (s.length : Int) then some (s.take i.toNat) else none
+
+def decimalAux : Nat → Nat → Str → Str
+  | 0, _, acc => acc
+  | fuel + 1, n, acc => if n < 10 then (48 + n) :: acc else decimalAux fuel (n / 10) ((48 + n % 10) :: acc)
+
+/-- `%d` of a natural number -/
+def decimal (n : Nat) : Str := decimalAux (n + 1) n []
+
+/-- `"...(%d bytes skipped)..."` -/
+def skippedMark (n : Nat) : Str :=
+  [46, 46, 46, 40] ++ decimal n ++ [32, 98, 121, 116, 101, 115, 32, 115, 107, 105, 112, 112, 101, 100, 41, 46, 46, 46]
+
+/-- `LimitPre(limit, pre)` -/
+def limitPre (limit : Nat) (pre : Str) : Option Str :=
+  if pre.length < limit then some pre
+  else (goSliceFrom pre ((pre.length : Int) - limit)).map fun tail => skippedMark (pre.length - limit) ++ tail
+
+/-- `LimitPost(limit, post)` -/
+def limitPost (limit : Nat) (post : Str) : Option Str :=
+  if post.length < limit then some post
+  else (goSliceTo post limit).map fun head => head ++ skippedMark (post.length - limit)
+
+/-- `strings.TrimSuffix(s, "\n")` -/
+def trimTrailingNewline (s : Str) : Str :=
+  if s.getLast? = some 10 then s.dropLast else s
+
+/-- `strings.Split(s, "\n")` -/
+def splitLines : Str → List Str
+  | [] => [[]]
+  | c :: rest =>
+    if c = 10 then [] :: splitLines rest
+    else match splitLines rest with
+      | [] => [[c]]
+      | l :: ls => (c :: l) :: ls
+
+/-- `AddLineNumbers(content, lineNum, isBefore)`: numbered lines; a trailing empty line is dropped -/
+def addLineNumbers (content : Str) (lineNum : Int) (isBefore : Bool) : List (Int × Str) :=
+  if content.isEmpty then [] else
+  let lines := splitLines content
+  let n := lines.length
+  let numbered := (List.range n).zip lines |>.map fun (i, l) =>
+    ((if isBefore then lineNum - n + i else lineNum + i + 1 : Int), l)
+  numbered.filter fun (p : Int × Str) => !(p.1 == (if isBefore then lineNum - 1 else lineNum + n) && p.2.isEmpty)
+
 end ZoektModel.C36
